@@ -579,7 +579,7 @@ impl WorkerState for W {
                 i += 2;
             }
             return match FileTree::read(&self.tmp).and_then(|ft| ft.compile(&self.rt)) {
-                Ok(_) => Outcome::fail("resolved-unreachable-name", format!("the tree compiled although a reference is unreachable under the lookup rules\n{text}")),
+                Ok(_) => Outcome::fail(format!("resolved-unreachable-name:literal:{:016x}", fnv(text.as_bytes())), format!("the tree compiled although a reference is unreachable under the lookup rules\n{text}")),
                 Err(e) if host::render_report(&e).starts_with("Error: Type error") => {
                     let mut o = Outcome::pass();
                     o.nontrivial = true;
